@@ -4,4 +4,3 @@ type Scenario struct{}
 
 func runScenario(sc *Scenario) interface{} { return nil }
 
-func unitMore(c *unitCase, s []string) string { return "UNKNOWN-FN" }
